@@ -298,7 +298,7 @@ func init() {
 				if o.K != "update" {
 					continue
 				}
-				if o.M == "unknownlog" || o.M == "crosslog" || o.M == "xsig_unknown" {
+				if o.M == "unknownlog" || o.M == "crosslog" || o.M == "xsig_unknown" || o.M == "prime_other" {
 					o.M = ""
 				}
 				if r.Chance(0.15) {
